@@ -38,7 +38,11 @@ func main() {
 	if os.Getenv("GOGC") == "" {
 		// the explorers hold large pointer-dense tables (bus segment tables) and allocate briskly;
 		// in this sandbox fresh pages are expensive, so a small heap that is reused beats a large one
-		debug.SetGCPercent(25)
+		gc := c.GC
+		if gc == 0 {
+			gc = 400
+		}
+		debug.SetGCPercent(gc)
 	}
 	if f := os.Getenv("VERIF_MEMPROF"); f != "" {
 		runtime.MemProfileRate = 4096
